@@ -9,7 +9,10 @@ CONSTANTS Mode,        \* "mc" | "edges" | "edgesb" (batch edges over the pool k
                        \* compositions of Put/Del steps and add no new states, only cost)
           Depth,       \* sim: length of the emitted behaviours
           NBatch,      \* sim: number of random candidate batches offered per step
-          NKeys        \* sim: number of randomly drawn keys offered per step (keeps the successor set small)
+          NKeys,       \* sim: number of randomly drawn keys offered per step (keeps the successor set small)
+          Encs         \* representations of the empty value offered for deletions-by-empty-value:
+                       \* "nil", "empty" (zero-length non-nil slice), "mixed" (alternating inside a batch);
+                       \* the abstract action is the same, the binding must not care
 
 VARIABLES act, hist, cur
 
@@ -44,6 +47,10 @@ OpsAll == [k : Keys, v : Vals \cup {0}]
 OpsIns == [k : Keys, v : Vals]
 (* four keys in three first-nibble groups, put and delete *)
 OpsPool == [k : PoolKeys, v : Vals \cup {0}]
+(* a smaller pool for the quick tier: still two keys in one group, deletions in two groups *)
+MaxVal == CHOOSE v \in Vals : \A w \in Vals : w <= v
+OpsPool6 == {[k |-> <<0, 0>>, v |-> MaxVal], [k |-> <<0, 0>>, v |-> 0], [k |-> <<0, 1>>, v |-> MaxVal],
+             [k |-> <<1, 0>>, v |-> MaxVal], [k |-> <<1, 0>>, v |-> 0], [k |-> <<15, 1>>, v |-> MaxVal]}
 
 (* ------------------------------- actions -------------------------------- *)
 (* sim: remember the raw successor, converted to its JSON view only when printed *)
@@ -55,19 +62,22 @@ MCInit == Init /\ act = [op |-> "init"] /\ hist = <<>> /\ cur = <<>>
 
 SimKeys == IF Mode = "sim" THEN RandomSubset(NKeys, Keys) ELSE IF Mode = "edgesb" THEN PoolKeys ELSE Keys
 
+(* a batch without deletions has nothing to encode *)
+EmptyEncs(ops) == IF \E i \in 1..Len(ops) : ops[i].v = 0 THEN Encs ELSE {"nil"}
+
 MCNext ==
   \/ \E k \in SimKeys : \E v \in Vals :
         Put(k, v) /\ act' = [op |-> "put", k |-> k, v |-> v] /\ Log /\ UNCHANGED cur
-  \/ \E k \in SimKeys : \E viaUpdate \in BOOLEAN :
-        Del(k) /\ act' = [op |-> IF viaUpdate THEN "putempty" ELSE "del", k |-> k, v |-> 0]
+  \/ \E k \in SimKeys : \E via \in {"del"} \cup Encs :
+        Del(k) /\ act' = [op |-> IF via = "del" THEN "del" ELSE "putempty", k |-> k, v |-> 0, enc |-> via]
                /\ Log /\ UNCHANGED cur
-  \/ \E ops \in BatchSet :
-        \/ SeqBatches /\ BatchSeq(ops) /\ act' = [op |-> "batch", ops |-> ops, par |-> FALSE]
+  \/ \E ops \in BatchSet : \E enc \in EmptyEncs(ops) :
+        \/ SeqBatches /\ BatchSeq(ops) /\ act' = [op |-> "batch", ops |-> ops, par |-> FALSE, enc |-> enc]
                          /\ Log /\ UNCHANGED cur
-        \/ BatchPar(ops) /\ act' = [op |-> "batchstart", ops |-> ops, par |-> TRUE]
-                         /\ cur' = ops /\ UNCHANGED hist
+        \/ BatchPar(ops) /\ act' = [op |-> "batchstart", ops |-> ops, par |-> TRUE, enc |-> enc]
+                         /\ cur' = [ops |-> ops, enc |-> enc] /\ UNCHANGED hist
   \/ \E i \in Nib : Worker(i) /\ act' = [op |-> "worker", i |-> i] /\ UNCHANGED <<hist, cur>>
-  \/ BatchEnd /\ act' = [op |-> "batch", ops |-> cur, par |-> TRUE]
+  \/ BatchEnd /\ act' = [op |-> "batch", ops |-> cur.ops, par |-> TRUE, enc |-> cur.enc]
               /\ Log /\ cur' = <<>>
 
 MCSpec == MCInit /\ [][MCNext]_mcvars
@@ -81,7 +91,7 @@ Edge ==
   IF Mode \notin {"edges", "edgesb"} \/ act'.op = "worker" \/ (act'.op = "batch" /\ act'.par) THEN TRUE
   ELSE IF Mode = "edgesb" /\ act'.op \notin {"batch", "batchstart"} THEN TRUE
   ELSE IF act'.op = "batchstart"
-       THEN PrintT(<<"EDGE", ToJson([from |-> KVList(kv), act |-> [op |-> "batch", ops |-> act'.ops, par |-> TRUE],
+       THEN PrintT(<<"EDGE", ToJson([from |-> KVList(kv), act |-> [op |-> "batch", ops |-> act'.ops, par |-> TRUE, enc |-> act'.enc],
                                      to |-> [kv |-> KVList(goal'), tree |-> TreeJ(CanonKV(goal'))]])>>)
        ELSE PrintT(<<"EDGE", ToJson([from |-> KVList(kv), act |-> act', to |-> Exp])>>)
 
